@@ -53,6 +53,11 @@ type Scenario struct {
 	ResetConfig string
 	// StrictPartials: the server answers "not found" for a partial tile whose complete tile exists.
 	StrictPartials bool
+	// ForgeLookup: lookup responses whose path contains this text carry a record whose first hash is altered
+	// (the signed tree head in the response stays as the server made it).
+	ForgeLookup string
+	// DefaultHeight: the clients do not call SetTileHeight (Height must be 8, the default, for the server's sake).
+	DefaultHeight bool
 	// WriteFails: the WriteConfig calls with these ordinal numbers (1-based, over all clients) fail with an
 	// I/O error instead of being performed.
 	WriteFails []int
@@ -121,6 +126,11 @@ func All() []Scenario {
 // small deviation bounds only.
 func Big() []Scenario {
 	return []Scenario{
+		// clients that never call SetTileHeight (default height 8), logs past the first complete tile, with and
+		// without a server that drops stale partial tiles, stored heads below and above 256
+		{Name: "default-height-strict-partials-small-head", Height: 8, DefaultHeight: true, Preload: pre(10), Stored: true, Grow: 300, StrictPartials: true, Clients: 1, Threads: [][]Lookup{{L(0, 0, false)}, {L(0, 1, true)}}},
+		{Name: "default-height-strict-partials-head-260", Height: 8, DefaultHeight: true, Preload: pre(10), Grow: 259, Warm: []Lookup{L(0, 0, false)}, ResetConfig: "", StrictPartials: true, Clients: 2, Threads: [][]Lookup{{L(0, 1, false)}, {L(1, 3, false)}}},
+		{Name: "default-height-plain-server", Height: 8, DefaultHeight: true, Preload: pre(10), Stored: true, Grow: 270, Clients: 1, Threads: [][]Lookup{{L(0, 0, false)}, {L(0, 2, false)}}},
 		{Name: "big-log-h1-stored-1", Height: 1, Preload: pre(10), Stored: true, Grow: 40, Clients: 1, Threads: [][]Lookup{{L(0, 0, false)}, {L(0, 1, true)}}},
 		{Name: "big-log-h1-stored-1-b", Height: 1, Preload: pre(10), Stored: true, Grow: 61, Clients: 1, Threads: [][]Lookup{{L(0, 0, false)}, {L(0, 1, true)}}},
 		{Name: "big-log-h1-stored-1-c", Height: 1, Preload: pre(10), Stored: true, Grow: 125, Clients: 1, Threads: [][]Lookup{{L(0, 1, true)}, {L(0, 0, false)}}},
@@ -171,6 +181,9 @@ func ForkScenarios() []Scenario {
 		// talk to one log, thread 2 to the other); thread 3 looks up a record that is already logged
 		{Name: "fork-one-client-first-write-fails", Height: 2, Preload: pre(10, 11, 12, 13), Stored: true, Clients: 1, Fork: true, ByThread: true, WriteFails: []int{1}, Threads: [][]Lookup{{L(0, 0, false)}, {L(0, 1, false)}, {L(0, 10, false)}}},
 		{Name: "fork-two-clients-second-write-fails", Height: 1, Preload: pre(10), Stored: true, Clients: 2, Fork: true, WriteFails: []int{2}, Threads: [][]Lookup{{L(0, 0, false), L(0, 10, false)}, {L(1, 1, false)}}},
+		// a validly signed, advancing head that comes with a record that does not authenticate (client 0), then a
+		// lookup of the same client answered under that head, while client 1 is shown a fork
+		{Name: "fork-two-clients-forged-record-under-advancing-head", Height: 2, Preload: pre(10, 11), Stored: true, Clients: 2, Fork: true, ForgeLookup: "m0.example", Threads: [][]Lookup{{L(0, 0, false), L(0, 10, false)}, {L(1, 1, false)}}},
 		{Name: "fork-two-clients-second-lookup-fork-only-record", Height: 1, Preload: pre(10), Stored: true, Clients: 2, Fork: true, Threads: [][]Lookup{{L(0, 0, false)}, {L(1, 1, false), {1, "fork.example/only", "v1.0.0"}}}},
 		{Name: "same-log-different-sizes", Height: 2, Preload: pre(10, 11, 12), Stored: true, Clients: 2, Threads: [][]Lookup{{L(0, 0, false), L(0, 1, false)}, {L(1, 3, false)}}},
 	}
@@ -217,6 +230,7 @@ type Env struct {
 	HeadsSeen      []int64 // sizes of tree heads carried by lookup responses
 	Served         []ServedHead
 	byThread       bool
+	forgeLookup    string
 	writeFails     []int
 	nWrites        int
 	strictPartials bool
@@ -289,6 +303,16 @@ func (v view) ReadRemote(path string) ([]byte, error) {
 		return nil, fmt.Errorf("GET %s: %d %s", path, w.Code, strings.TrimSpace(w.Body.String()))
 	}
 	data := w.Body.Bytes()
+	if v.e.forgeLookup != "" && strings.HasPrefix(path, "/lookup/") && strings.Contains(path, v.e.forgeLookup) {
+		if i := bytes.Index(data, []byte(" h1:")); i >= 0 && i+5 < len(data) {
+			data = append([]byte(nil), data...)
+			if data[i+4] == 'A' {
+				data[i+4] = 'B'
+			} else {
+				data[i+4] = 'A'
+			}
+		}
+	}
 	if strings.HasPrefix(path, "/lookup/") {
 		if _, _, treeMsg, err := tlog.ParseRecord(data); err == nil {
 			if n, err := note.Open(treeMsg, note.VerifierList(world.TheKeys().V)); err == nil {
@@ -383,7 +407,7 @@ type Res struct {
 // done, point is the scheduling hook for external operations (nil when free-running).
 func Exec(sc Scenario, spawn func(func()), wait func(), point func(string)) (*Env, []Res) {
 	k := world.TheKeys()
-	e := &Env{Point: nil, Config: map[string][]byte{}, Cache: map[string][]byte{}, name: k.Name, byThread: sc.ByThread, strictPartials: sc.StrictPartials, writeFails: sc.WriteFails}
+	e := &Env{Point: nil, Config: map[string][]byte{}, Cache: map[string][]byte{}, name: k.Name, byThread: sc.ByThread, strictPartials: sc.StrictPartials, writeFails: sc.WriteFails, forgeLookup: sc.ForgeLookup}
 	nsrv := 1
 	if sc.Fork {
 		nsrv = 2
@@ -438,7 +462,9 @@ func Exec(sc Scenario, spawn func(func()), wait func(), point func(string)) (*En
 	}
 	if len(sc.Warm) > 0 {
 		wc := sumdb.NewClient(view{e, 0})
-		wc.SetTileHeight(sc.Height)
+		if !sc.DefaultHeight {
+			wc.SetTileHeight(sc.Height)
+		}
 		for _, l := range sc.Warm {
 			if _, err := wc.Lookup(l.Path, l.Vers); err != nil {
 				panic("warm-up lookup failed: " + err.Error())
@@ -456,7 +482,9 @@ func Exec(sc Scenario, spawn func(func()), wait func(), point func(string)) (*En
 	clients := make([]*sumdb.Client, sc.Clients)
 	for i := range clients {
 		c := sumdb.NewClient(view{e, i})
-		c.SetTileHeight(sc.Height)
+		if !sc.DefaultHeight {
+			c.SetTileHeight(sc.Height)
+		}
 		if sc.GONOSUMDB != "" {
 			c.SetGONOSUMDB(sc.GONOSUMDB)
 		}
@@ -730,6 +758,11 @@ func Check(sc Scenario, e *Env, results []Res) (string, string) {
 				for _, r := range results {
 					if r.Err == nil || r.Lookup.Client != a.client {
 						continue
+					}
+					// the earlier lookup must have failed while reconciling two heads or the configuration: a security
+					// error, a failed comparison of two trees, or an I/O error of the configuration
+					if es := r.Err.Error(); !strings.Contains(es, sumdb.ErrSecurity.Error()) && !strings.Contains(es, "injected I/O error") && !strings.Contains(es, "checking tree#") {
+						continue // (comparing two heads can also fail on a tile of the other log found in the shared cache)
 					}
 					for _, sh := range e.Served {
 						if sh.Client == a.client && sh.Path == lookupPath(r.Lookup) && sh.Tree == a.t {
